@@ -284,10 +284,28 @@ def _worker(item):
 
 
 def _worker2(item):
+    dl = item.get("deadline")
+    if dl is not None:
+        left = dl - time.time()
+        if left < 5:
+            r = _empty_result(item)
+            r["truncated"] = True
+            r["inconclusive"] = ["not started: the check's time budget was used up"]
+            r["n_inconclusive"] = 1
+            return r
+        item = dict(item)
+        item["budget_s"] = min(item.get("budget_s", float(os.environ.get("PYSX_ITEM_BUDGET_S", "900"))), left)
     try:
         return run_item(item)
     except BaseException:
-        return {"item": item, "error": traceback.format_exc(), "paths": 0, "cut": 0, "cut_reasons": {},
+        r = _empty_result(item)
+        r["error"] = traceback.format_exc()
+        return r
+
+
+def _empty_result(item):
+    if True:
+        return {"item": {k: v for k, v in item.items() if k != "roots"}, "error": None, "paths": 0, "cut": 0, "cut_reasons": {},
                 "unsupported": {}, "decisions": 0, "queries": 0, "solver_s": 0.0, "unknown": 0,
                 "reached": 0, "discharged": 0, "validated": 0, "mismatch": [], "n_mismatch": 0,
                 "violations": [], "spurious": 0, "inconclusive": [], "n_inconclusive": 0,
@@ -362,9 +380,11 @@ def main_check(pid, modname, tier, seed):
     t0 = time.time()
     mod = importlib.import_module(modname)
     items = mod.items(tier)
+    budget = float(os.environ.get("VERIF_BUDGET_S", "1200" if tier == "quick" else "3000"))
     for it in items:
         it.setdefault("mod", modname)
         it["pid"] = pid
+        it["deadline"] = t0 + budget
     jobs = int(os.environ.get("VERIF_JOBS", "0")) or None
     results = run_items(items, jobs)
     # work sharing: sub-trees handed back (split depth reached / item ran longer than its
